@@ -285,7 +285,7 @@ fn build_trak(m: &Movie, t: &MTrack, chunk_offsets: &[u64]) -> BoxT {
     // handler names: mostly an ordinary one; some tracks carry a name that looks like a
     // QuickTime counted string (first byte == number of bytes that follow), with an ASCII or a
     // two-byte first character - a conforming C string all the same
-    let name: Vec<u8> = match (t.timescale as usize + t.samples.len()) % 7 {
+    let name: Vec<u8> = match (t.timescale as usize + t.samples.len()) % 9 {
         0 => {
             let mut v = "\u{c3}".as_bytes().to_vec(); // C3 83
             v.extend(std::iter::repeat(b'x').take(0xC3 - 1));
@@ -294,6 +294,12 @@ fn build_trak(m: &Movie, t: &MTrack, chunk_offsets: &[u64]) -> BoxT {
         1 => {
             let mut v = vec![b'0'];
             v.extend(std::iter::repeat(b'y').take(b'0' as usize));
+            v
+        }
+        // the other convention: first byte == length of the whole name
+        2 => {
+            let mut v = vec![b'A'];
+            v.extend(std::iter::repeat(b'z').take(b'A' as usize - 1));
             v
         }
         _ => b"VerifHandler".to_vec(),
